@@ -30,6 +30,20 @@
     * a transparent style iterates `DistanceIterator::empty()`; `draw_styled` is literally
       `target.draw_iter(StyledPixelsIterator::new(..))`.
 
+  Special sweeps, as the code has them:
+    * `|sweep| >= 360°`: `EntirePlane`, every point of the circle is `Fill`, no bevel (the interior
+      bevel needs `|sweep| < 360°`): the picture is the styled circle;
+    * `180° <= |sweep| < 360°`: `Union` of the two half planes, both for the sector and for the
+      two threshold tests of `point_type`;
+    * zero / unresolvably small sweeps (both normals equal): `point_type` has NO bisector test
+      (unlike the repaired `PlaneSector::contains` used by `Sector::points()` / `contains()`), so
+      the band `|distance| <= threshold` is a strip along the whole LINE through the centre. The
+      exterior bevel removes the `Stroke` points more than `2 * outside_stroke_width` pixels behind
+      the centre, but `Fill` points are not bevelled: with stroke width 0 (or a fill-only style) a
+      sector of sweep 0 paints the full diameter, opposite ray included, while its `points()` are
+      the ray only. Modelled as it is (witness: `sector.ssector 0 0 13 0 0 .. 7 - 0 1 ..`); none of
+      C01 / C02 / C07 is affected.
+
   Trigonometry is not modelled. Two values enter from the real code (op line of the correspondence):
     * the `PlaneSector` (operation tag + two integer normals; hook `verif_hooks::plane_sector`) —
       `stroke_area` keeps the angles of the primitive, so it is the primitive's plane sector;
